@@ -192,9 +192,55 @@ def _nonempty_on_all_paths(f, site, name):
     return True
 
 
+_MODEL_SITES = {}
+
+
+def model_sites(repo):
+    """Definite runtime exceptions the interpretation model of the host-key probe (props/_hostkey_rating.probe) meets on hostile measurements: the reply of a
+    probe carries a peer-chosen host-key blob, so the CA key type is any string and the sizes any number.  Every crash the model proves is a partial-operation
+    site; whether it escapes audit() is decided by the escape analysis like for every other site."""
+    import re as _re2
+    from props import _hostkey_rating
+    from sa.consteval import ConstEnv
+    _MODEL_SITES.clear()
+    consts = _hostkey_rating.class_consts(repo, ConstEnv(repo), 'hostkeytest', 'HostKeyTest')
+    cases = []
+    for hkt in ('ssh-rsa-cert-v01@openssh.com', 'ssh-ed25519-cert-v01@openssh.com'):
+        for cat in ('', 'x', 'sk-ssh-ed25519@openssh.com', 'ssh-ed448', 'ssh-rsa', 'rsa-sha2-512', 'ssh-dss', 'ssh-ed25519', 'ecdsa-sha2-nistp256', 'ecdsa-sha2-nistp999'):
+            for hs, cs in ((0, 0), (256, 0), (256, 1), (4096, 4096), (1, 256), (2048, 2048)):
+                cases.append((hkt, True, hs, cat, cs))
+    for hkt in ('ssh-rsa', 'rsa-sha2-256', 'ssh-ed25519', 'ssh-ed448', 'ssh-dss', 'ecdsa-sha2-nistp256', 'sk-ssh-ed25519@openssh.com'):
+        for hs in (0, 1, 256, 4096):
+            cases.append((hkt, False, hs, '', 0))
+    n = 0
+    for c in cases:
+        ev_ = _hostkey_rating.probe(repo, consts, [c])
+        n += 1
+        if not ev_['crash']:
+            continue
+        m = _re2.match(r'^(.*) raises (\w+) \((?:.*/)?(\w+)\.py:(\d+)\)$', ev_['crash'])
+        if not m:
+            raise AnalysisError('probe model: crash text not understood: %s' % ev_['crash'])
+        text, exc, modname, line = m.group(1), m.group(2), m.group(3), int(m.group(4))
+        found = None
+        for f in repo.all_funcs().values():
+            if f._module.name != modname:
+                continue
+            for x in walk_no_nested(f):
+                if isinstance(x, ast.expr) and getattr(x, 'lineno', None) == line and unparse(x) == text:
+                    found = (f, x)
+        if found is None:
+            raise AnalysisError('probe model: crash site not found in the tree: %s' % ev_['crash'])
+        f, x = found
+        key = (func_id(f), text, exc)
+        if key not in {(func_id(s.func), unparse(s.node), s.exc) for s in _MODEL_SITES.get(func_id(f), [])}:
+            _MODEL_SITES.setdefault(func_id(f), []).append(Site(exc, x, 'proved by the probe model for (type, certificate, size, CA type, CA size) = %r' % (c,), f))
+    return n
+
+
 def partial_sites(f):
     """Repo-specific partial operations (frozen table; each pattern confirmed by reading)."""
-    out = []
+    out = list(_MODEL_SITES.get(func_id(f), []))
     mod = f._module.name
     # names assigned from KexDH.__get_bytes (peer bytes of unknown length)
     peer_bytes = set()
@@ -321,6 +367,7 @@ def run(repo, rep, tier):
         if site.exc != 'struct.error' or callee.name not in READ_COST or not isinstance(call, ast.Call) or f is not rp:
             return False
         return id(call) in framing['covered'] and id(call) not in uncovered
+    rep.extra['probe_model_hostile_cases'] = model_sites(repo)
     ea = EscapeAnalysis(repo, cg, partial_sites, skip_func=skip, total_here=TOTAL_HERE, edge_filter=edge_filter)
     rep.extra['total_here_exemptions_used'] = sorted('%s | %s | %s' % k for k in ea.used_exemptions)
 
